@@ -464,7 +464,7 @@ func run(c *Ctx) error {
 	if !quick {
 		nMapped = 1500
 	}
-	sk := detectSkipUnspec()
+	sk, _ := variantFlags()
 	c.Count("mapped-variant:skip_unspecified=" + B(sk))
 	for i := 0; i < nMapped; i++ {
 		if err := runCase(c, genMapped(c, p, sk)); err != nil {
@@ -476,7 +476,7 @@ func run(c *Ctx) error {
 	if !quick {
 		nMux = 1000
 	}
-	fx := detectUDPMuxFixed()
+	_, fx := variantFlags()
 	c.Count("udpmux-variant:family_gate=" + B(fx))
 	for i := 0; i < nMux; i++ {
 		if err := runCase(c, genUDPMux(c, fx)); err != nil {
@@ -1602,7 +1602,23 @@ func resolvedTok(a *ice.Agent, wild net.IP) string {
 	return strings.Join(out, ",")
 }
 
+var (
+	probeOnce             sync.Once
+	probedSkip, probedMux bool
+)
+
+// the variant flags are facts about the implementation, not inputs: they are (re)written into every case, also when a
+// recorded case is replayed against a tree that has changed since
+func variantFlags() (bool, bool) {
+	probeOnce.Do(func() { probedSkip, probedMux = detectSkipUnspec(), detectUDPMuxFixed() })
+
+	return probedSkip, probedMux
+}
+
 func runMapped(c *Ctx, t []string) {
+	sk, _ := variantFlags()
+	t = append([]string{}, t...)
+	t[1] = B(sk)
 	g, rs := mappedCase(t)
 	c.Count("gmapped")
 	if g.iff != "-" || g.ipf != "-" {
@@ -1746,6 +1762,9 @@ func udpmuxCase(t []string) gcase {
 }
 
 func runUDPMux(c *Ctx, t []string) {
+	_, fx := variantFlags()
+	t = append([]string{}, t...)
+	t[1] = B(fx)
 	g := udpmuxCase(t)
 	c.Count("gudpmux")
 	if g.mdns {
